@@ -15,11 +15,19 @@ for d in sorted(glob.glob(V + "/seeded/*")):
                 str(m.get("what_it_needs_to_manifest", "")).replace("|", "/").replace("\n", " ")[:260], str(m.get("checks_that_catch_it", "")).replace("|", "/")))
 seeded = "\n".join(rows)
 f = json.load(open(V + "/known_findings.json"))["findings"]
-rows = ["| id | property | status | commit | what |", "|---|---|---|---|---|"]
+frows = ["| id | property | status | commit | what |", "|---|---|---|---|---|"]
 for x in f:
-    rows.append("| %s | %s | %s | %s | %s |" % (x["id"], x["property"], x["status"], x.get("commit", ""), x["what"].replace("|", "/")[:400]))
+    frows.append("| %s | %s | %s | %s | %s |" % (x["id"], x["property"], x["status"], x.get("commit", ""), x["what"].replace("|", "/")[:400]))
+rows = ["| property | tier | events judged (applicable) | distinct (state, action) cases | TLC states (MC + trace) | traces validated | MC runs | wall s |",
+        "|---|---|---|---|---|---|---|---|"]
+for f2 in sorted(glob.glob(V + "/evidence/C*.json")):
+    e = json.load(open(f2)); c = e["coverage"]
+    rows.append("| %s | %s | %s | %s | %s | %s | %s | %s |" % (e["property_id"], e["tier"], c.get("evaluations"), c.get("distinct_nontrivial"),
+                c.get("states"), c.get("traces_validated_against_impl"), len(c.get("mc_runs", [])), e.get("wall_s")))
+coverage = "\n".join(rows)
 s = open(V + "/DESIGN.md").read()
 s = block("seeded", seeded, s)
-s = block("findings", "\n".join(rows), s)
+s = block("findings", "\n".join(frows), s)
+s = block("coverage", coverage, s)
 open(V + "/DESIGN.md", "w").write(s)
 print("ok")
